@@ -225,6 +225,7 @@ PROPS["C14"]["bounded"] = list(PROPS["C14"].get("bounded") or []) + list(PROPS["
 PROPS["C16"]["tasks"] = PROPS["C16"]["tasks"] + ["Market._execute_orders", "Market._update_market_price"]      # the halt line is tested against the market price a fill leaves behind
 for _p in ("C13", "C18"):
     PROPS[_p]["tasks"] = PROPS[_p]["tasks"] + ["Simulator.__init__[registries]"]
+PROPS["C12"]["tasks"] = PROPS["C12"]["tasks"] + ["Fundamentals.get_fundamental_prices"]
 from .census import CALLERS as _CALLERS
 for _g, (_ps, _r, _t) in _CALLERS.items():
     for _p in _ps:
